@@ -55,7 +55,7 @@ pub proof fn lemma_gen_post_trans(a: Compiler, b: Compiler, c: Compiler, ok1: bo
 /// a step that only appends bytes (emit_opcode / emit_u8 / emit_u16 sequences) and keeps the invariant
 pub proof fn lemma_gen_post_append(b: Compiler, c: Compiler, extra: Seq<u8>)
     requires c.instructions@ == b.instructions@ + extra, extra.len() > 0, gen_inv(c),
-             c.loop_contexts == b.loop_contexts, c.loop_h@ == b.loop_h@, sym_same(c.symbols, b.symbols),
+             c.loop_contexts == b.loop_contexts, c.loop_h@ == b.loop_h@, c.locals_bound@ >= b.locals_bound@, sym_same(c.symbols, b.symbols),
              b.constants@.len() <= c.constants@.len(), forall|i: int| 0 <= i < b.constants@.len() ==> c.constants@[i] == b.constants@[i],
     ensures gen_post(b, c, true)
 {
@@ -65,8 +65,8 @@ pub proof fn lemma_gen_post_append(b: Compiler, c: Compiler, extra: Seq<u8>)
 
 /// nothing emitted (an early error return, a failed attempt that only touched the constant pool)
 pub proof fn lemma_gen_post_same(b: Compiler, c: Compiler)
-    requires c.instructions@ == b.instructions@, c.last_instruction == b.last_instruction, gen_inv(b), sym_wf(c.symbols), (c.last_instruction == Some(OpCode::ReturnValue) ==> c.height@ is Dead) && hcovers(c.height@, 0),
-             c.loop_contexts == b.loop_contexts, c.loop_h@ == b.loop_h@,
+    requires c.instructions@ == b.instructions@, c.last_instruction == b.last_instruction, gen_inv(b), sym_wf(c.symbols), sym_max_size(c.symbols) >= sym_max_size(b.symbols), (c.last_instruction == Some(OpCode::ReturnValue) ==> c.height@ is Dead) && hcovers(c.height@, 0),
+             c.loop_contexts == b.loop_contexts, c.loop_h@ == b.loop_h@, c.locals_bound@ == b.locals_bound@,
              b.constants@.len() <= c.constants@.len(), forall|i: int| 0 <= i < b.constants@.len() ==> c.constants@[i] == b.constants@[i],
     ensures gen_post(b, c, false)
 {
@@ -101,7 +101,7 @@ pub open spec fn new_breaks_clear_of(a: Compiler, b: Compiler, idx: int) -> bool
 pub proof fn lemma_gen_post_patch(a: Compiler, b: Compiler, c: Compiler, idx: int, lo: u8, hi: u8, ok: bool)
     requires gen_post(a, b, ok), a.instructions@.len() <= idx, idx + 2 < b.instructions@.len(),
              c.instructions@ == b.instructions@.update(idx + 1, lo).update(idx + 2, hi),
-             c.last_instruction == b.last_instruction, c.loop_contexts == b.loop_contexts, c.loop_h@ == b.loop_h@, sym_same(c.symbols, b.symbols), c.constants == b.constants,
+             c.last_instruction == b.last_instruction, c.loop_contexts == b.loop_contexts, c.loop_h@ == b.loop_h@, c.locals_bound@ == b.locals_bound@, sym_same(c.symbols, b.symbols), c.constants == b.constants,
              new_breaks_clear_of(a, b, idx), (c.last_instruction == Some(OpCode::ReturnValue) ==> c.height@ is Dead) && hcovers(c.height@, 0),
              (b.last_instruction is Some && no_operand_tail(b.last_instruction->Some_0)) ==> idx + 2 < b.instructions@.len() - 1,
     ensures gen_post(a, c, ok)
@@ -122,7 +122,7 @@ pub proof fn lemma_gen_post_patch(a: Compiler, b: Compiler, c: Compiler, idx: in
 pub proof fn lemma_gen_post_remove_last(a: Compiler, b: Compiler, c: Compiler, ok: bool)
     requires gen_post(a, b, ok), b.last_instruction == Some(OpCode::Pop), a.instructions@.len() < b.instructions@.len(),
              c.instructions@ == b.instructions@.drop_last(), c.last_instruction is None, hcovers(c.height@, 0),
-             c.loop_contexts == b.loop_contexts, c.loop_h@ == b.loop_h@, sym_same(c.symbols, b.symbols), c.constants == b.constants,
+             c.loop_contexts == b.loop_contexts, c.loop_h@ == b.loop_h@, c.locals_bound@ == b.locals_bound@, sym_same(c.symbols, b.symbols), c.constants == b.constants,
     ensures gen_post(a, c, false)
 {
     let n = a.loop_contexts@.len() as int;
@@ -140,19 +140,19 @@ pub proof fn lemma_gen_post_remove_last(a: Compiler, b: Compiler, c: Compiler, o
 /// n > 0 bytes appended by emit_* calls, nothing else touched
 pub open spec fn step_appended(b: Compiler, c: Compiler, n: int) -> bool {
     n > 0 && is_prefix(b.instructions@, c.instructions@) && c.instructions@.len() == b.instructions@.len() + n
-        && sym_same(b.symbols, c.symbols) && b.loop_h@ == c.loop_h@ && b.constants == c.constants && b.loop_contexts == c.loop_contexts && gen_inv(c)
+        && sym_same(b.symbols, c.symbols) && b.loop_h@ == c.loop_h@ && b.locals_bound@ == c.locals_bound@ && b.constants == c.constants && b.loop_contexts == c.loop_contexts && gen_inv(c)
 }
 /// the operand of the jump at idx overwritten by change_jump_operand_at, nothing else touched
 pub open spec fn step_patched(b: Compiler, c: Compiler, idx: int) -> bool {
     0 <= idx && idx + 2 < b.instructions@.len()
         && c.instructions@ == b.instructions@.update(idx + 1, c.instructions@[idx + 1]).update(idx + 2, c.instructions@[idx + 2])
-        && c.last_instruction == b.last_instruction && sym_same(b.symbols, c.symbols) && b.loop_h@ == c.loop_h@ && b.constants == c.constants && b.loop_contexts == c.loop_contexts
+        && c.last_instruction == b.last_instruction && sym_same(b.symbols, c.symbols) && b.loop_h@ == c.loop_h@ && b.locals_bound@ == c.locals_bound@ && b.constants == c.constants && b.loop_contexts == c.loop_contexts
 }
 /// `if self.last_instruction_is(Pop) { self.remove_last_instruction() }`
 pub open spec fn step_peephole(b: Compiler, c: Compiler) -> bool {
     if b.last_instruction == Some(OpCode::Pop) {
         c.instructions@ == b.instructions@.drop_last() && c.last_instruction is None
-            && sym_same(b.symbols, c.symbols) && b.loop_h@ == c.loop_h@ && b.constants == c.constants && b.loop_contexts == c.loop_contexts
+            && sym_same(b.symbols, c.symbols) && b.loop_h@ == c.loop_h@ && b.locals_bound@ == c.locals_bound@ && b.constants == c.constants && b.loop_contexts == c.loop_contexts
     } else { c == b }
 }
 
@@ -169,12 +169,13 @@ pub proof fn lemma_step_appended(b: Compiler, c: Compiler, n: int)
 pub open spec fn consts_syms_kept(a: Compiler, c: Compiler) -> bool {
     a.constants@.len() <= c.constants@.len() && (forall|i: int| 0 <= i < a.constants@.len() ==> c.constants@[i] == a.constants@[i])
         && sym_depth(c.symbols) == sym_depth(a.symbols) && sym_contexts(c.symbols) == sym_contexts(a.symbols) && sym_outer(c.symbols) == sym_outer(a.symbols) && sym_outer_sizes(c.symbols) == sym_outer_sizes(a.symbols)
+        && sym_max_size(c.symbols) >= sym_max_size(a.symbols) && c.locals_bound@ >= a.locals_bound@
 }
 /// a generator that leaves EVERY loop context exactly as it found it (Expr::While pops the context it pushed;
 /// Expr::Function swaps the enclosing contexts out and back)
 pub proof fn lemma_gen_post_closed_loop(a: Compiler, c: Compiler)
     requires is_prefix(a.instructions@, c.instructions@), c.instructions@.len() > a.instructions@.len(), gen_inv(c),
-             same_loops(c, a), c.loop_h@ == a.loop_h@, consts_syms_kept(a, c),
+             same_loops(c, a), c.loop_h@ == a.loop_h@, c.locals_bound@ >= a.locals_bound@, sym_max_size(c.symbols) >= sym_max_size(a.symbols), consts_syms_kept(a, c),
     ensures gen_post(a, c, true)
 {
     let n = a.loop_contexts@.len() as int;
@@ -188,7 +189,7 @@ pub proof fn lemma_gen_post_closed_loop(a: Compiler, c: Compiler)
 /// remembered `antwoord` still means dead code
 pub proof fn lemma_gen_post_ghost(a: Compiler, b: Compiler, c: Compiler, ok: bool)
     requires gen_post(a, b, ok), sym_same(c.symbols, b.symbols), c.constants == b.constants, c.instructions == b.instructions,
-             c.last_instruction == b.last_instruction, c.loop_contexts == b.loop_contexts, c.loop_h@ == b.loop_h@, (c.last_instruction == Some(OpCode::ReturnValue) ==> c.height@ is Dead) && hcovers(c.height@, 0),
+             c.last_instruction == b.last_instruction, c.loop_contexts == b.loop_contexts, c.loop_h@ == b.loop_h@, c.locals_bound@ == b.locals_bound@, (c.last_instruction == Some(OpCode::ReturnValue) ==> c.height@ is Dead) && hcovers(c.height@, 0),
     ensures gen_post(a, c, ok)
 {
     let n = a.loop_contexts@.len() as int;
